@@ -640,6 +640,26 @@ def run_lattice(cell, seed, fails, feats):
                     fails.add("lattice-set-train-data", f"set_train_data posterior covariance differs from a fresh model err={e:.3e}",
                               f"subset={idx}")
                     break
+        with fails.guard("lattice-set-train-data"):
+            # ... and with the INPUTS alone replaced (same shape, targets kept): the covariance handed out is the one of the new inputs
+            m = lattice_model(P, yP, kern, noise, ls, d)
+            with settings.fast_pred_var(fpv):
+                m(T)
+            P2 = P + 0.3
+            m.set_train_data(inputs=P2, strict=True)
+            fresh = lattice_model(P2, yP, kern, noise, ls, d)
+            with settings.fast_pred_var(fpv):
+                torch.manual_seed(util.seed_for(seed, "c07|lanczos"))
+                Cs = m(T).covariance_matrix
+                torch.manual_seed(util.seed_for(seed, "c07|lanczos"))
+                Cf = fresh(T).covariance_matrix
+            ops += 2
+            ok, sym, st = cov_verdict(Cs, ptol, scale=lam0)
+            if not ok:
+                fails.add("lattice-set-train-data", "posterior covariance after set_train_data(inputs only): " + sym, f"pool={P.tolist()}")
+            e = util.maxerr(Cs, Cf)
+            if e > (1e-6 if fpv else 1e-9) * max(1.0, lam0):
+                fails.add("lattice-set-train-data", f"set_train_data(inputs only) posterior covariance differs from a fresh model err={e:.3e}", "")
         cnt = {}
 
         def add(sub, sym, detail):      # a few representatives per sub-check, whatever the order of discovery
